@@ -5,7 +5,8 @@ from .. import build, ctlplane, evplane, fsmat, nsplane, runner, tlc
 from ..nsplane import E, SC
 from ..common import rng, scratch, ToolError
 
-MTIMES = ["1", "999999999", "1234567890123456789", "946684800000000001", "4102444800987654321", "1600000000500000000"]
+MTIMES = ["1", "999999999", "1234567890123456789", "946684800000000001", "4102444800987654321", "1600000000500000000",
+          "-1", "-99500000000", "-1000000000", "-86399000000001"]          # before the epoch: whole seconds negative, fraction still counted forwards
 XATTRS = [{}, {"user.one": "1"}, {"user.a": "alpha", "user.b": "", "user.long": "x" * 300}]
 OWNERS = [(0, 0), (1000, 1000), (65534, 7), (1, 65534)]
 
@@ -154,7 +155,7 @@ def run(ctx):
     combo.run(ctx, binary, {"C10"}, 40 if quick else 400, "C10")
     ctx.sample(recs[0]); ctx.sample(recs[len(recs) // 2])
     ctx.notes["files_judged"] = len(recs); ctx.notes["runs"] = len(jobs)
-    ctx.rule = ("%d modes out of 0..07777 (%s) x mtimes {1 ns, sub-second past, far future, ...} x xattr sets {none, one, three incl. empty and 300-byte "
+    ctx.rule = ("%d modes out of 0..07777 (%s) x mtimes {1 ns, sub-second past, far future, before the epoch with and without a fraction, ...} x xattr sets {none, one, three incl. empty and 300-byte "
                 "values} x uid/gid pairs, in trees copied with each combination of --no-perms/--no-timestamps/--ownership, both drivers, fresh and "
                 "overwritten destinations, 1- and multi-block files, umask {0,002,022,077}; one record per (run, file) judged by TLC (Trace_Meta). "
                 "non-trivial = special bit or unusual permission, sub-second mtime, xattrs, or ownership requested; distinct by (run, file)"
